@@ -42,3 +42,99 @@ def pick(x, lo, hi):
 
 def pickb(b):
     return True if b else False
+
+
+# ------------------------------------------------------------------ nondeterministic tape
+REPLAY_TAPE = None      # set by the replay driver: a concrete list of draws
+
+
+class Tape:
+    """Source of arbitrary values for randomness stubs.  Under CrossHair every draw mints a fresh symbolic
+    int (lazily, so only draws that really happen exist) and concretises it over its exact range by solver
+    decisions; under replay the recorded draws are played back."""
+    def __init__(self, limit=64):
+        self.log = []
+        self.limit = limit
+
+    def draw(self, k):
+        """arbitrary value in range(k)"""
+        if k <= 0:
+            raise ValueError('empty range')
+        i = len(self.log)
+        if i >= self.limit:
+            raise TapeExhausted()
+        if REPLAY_TAPE is not None:
+            v = REPLAY_TAPE[i] if i < len(REPLAY_TAPE) else 0
+            v = v % k
+        elif _realize is None or k == 1:
+            v = 0
+        else:
+            from crosshair.core import proxy_for_type
+            from crosshair.tracers import ResumedTracing
+            if is_tracing():
+                x = proxy_for_type(int, 'draw%d' % i)
+                v = pick(x % k, 0, k - 1)
+            else:
+                with ResumedTracing():
+                    x = proxy_for_type(int, 'draw%d' % i)
+                    v = pick(x % k, 0, k - 1)
+        self.log.append(v)
+        return v
+
+
+class TapeExhausted(Exception):
+    pass
+
+
+class FakeRandom:
+    """Stand-in for the `random` module: every outcome allowed by the documented contract of each function
+    can be produced (choice: any element; shuffle: any permutation; sample: any k-subset in any order;
+    randint/randrange: any value of the range; random: one of a few representative floats)."""
+    def __init__(self, tape, floats=(0.0, 0.25, 0.5, 0.75, 0.999999)):
+        self.tape = tape
+        self.floats = floats
+        self.seeded = []
+
+    def seed(self, x=None):
+        self.seeded.append(x)
+
+    def choice(self, seq):
+        seq = list(seq)
+        if not seq:
+            raise IndexError('Cannot choose from an empty sequence')
+        return seq[self.tape.draw(len(seq))]
+
+    def randint(self, a, b):
+        if b < a:
+            raise ValueError('empty range for randint')
+        return a + self.tape.draw(b - a + 1)
+
+    def randrange(self, a, b=None):
+        if b is None:
+            a, b = 0, a
+        if b <= a:
+            raise ValueError('empty range for randrange')
+        return a + self.tape.draw(b - a)
+
+    def shuffle(self, lst):
+        n = len(lst)
+        for i in range(n - 1, 0, -1):
+            j = self.tape.draw(i + 1)
+            lst[i], lst[j] = lst[j], lst[i]
+
+    def sample(self, population, k):
+        if isinstance(population, (set, frozenset, dict)) or not hasattr(population, '__len__'):
+            raise TypeError('Population must be a sequence.  For dicts or sets, use sorted(d).')
+        pool = list(population)
+        if not 0 <= k <= len(pool):
+            raise ValueError('Sample larger than population or is negative')
+        out = []
+        for _ in range(k):
+            out.append(pool.pop(self.tape.draw(len(pool))))
+        return out
+
+    def random(self):
+        return self.floats[self.tape.draw(len(self.floats))]
+
+    def getrandbits(self, k):
+        return self.tape.draw(1 << k)
